@@ -2,6 +2,7 @@
 
 import contextlib
 import io
+import logging
 import os
 import re
 import shutil
@@ -9,35 +10,43 @@ import subprocess
 import tempfile
 import traceback
 
-from .. import genc3, irsem
-from ..core import Discard, HarnessError, Stats, hyp_search, jhash, subseed
+from .. import c3prog as genc3, irsem
+from ..core import Discard, HarnessError, Stats, hyp_search, jhash, open_finding_ids, subseed
 
 PID = "C37"
 RULE = (
-    "Hypothesis-generated abstract programs (vf/genc3.py: int, byte, bool, int8..uint64, pointers, structs, arrays, "
-    "globals, consts, if/while/for/switch, pure and impure calls) rendered as a C3 module and as a C translation unit; "
-    "every function with scalar parameters is called on 1-4 boundary-biased argument vectors, each from the initial "
-    "globals. Oracle: gcc -O0 execution of the C rendering (return value + final value of every global scalar) against "
-    "vf/irsem.observe_call on ppci.api.c3_to_ir(..., 'x86_64') output (return value + global bytes decoded by the C3 "
-    "layout). A direct evaluator of the abstract program filters vectors that touch C undefined behaviour (signed "
-    "overflow, MIN/-1, ...) and cross-checks the two renderers; a gcc -fsanitize=undefined build discards what it reports. "
-    "Undefined behaviour or non-termination of the IR on a vector the evaluator finds defined is a failure. "
-    "non-trivial = the program uses a sub-int type in arithmetic or a comparison, or a switch/loop, and at least one "
-    "vector was compared; distinct = (program, vectors)"
+    "Hypothesis-generated abstract programs (vf/c3prog.py: int, byte, bool, int8..uint64, typedefs, pointers, structs, "
+    "arrays incl. nested aggregates, globals with constant initialisers, consts defined by constant expressions, sizeof, "
+    "if/while/for/switch, early returns, bounded recursion, pure calls inside expressions, impure calls as statements "
+    "and as operands of and/or/not) rendered as a C3 module and as a C translation unit; every function with scalar "
+    "parameters is called on 1-4 boundary-biased argument vectors, each from the initial globals. Oracle: gcc -O0 "
+    "execution of the C rendering (return value + final value of every global scalar) against vf/irsem.observe_call on "
+    "ppci.api.c3_to_ir(..., 'x86_64') output (return value + global bytes decoded by the C3 layout). A direct evaluator "
+    "of the abstract program filters vectors that touch C undefined behaviour (signed overflow, MIN/-1, ...) and "
+    "cross-checks the two renderers on every vector; a gcc -fsanitize=undefined build discards what it reports. "
+    "Undefined behaviour or non-termination of the IR on a vector that gcc and the evaluator find defined, a float in an "
+    "integer-typed ir.Const and a non-bytes initial value of an ir.Variable are failures; programs that c3_to_ir rejects "
+    "are discards (counted by diagnostic). non-trivial = the program uses a sub-int type in arithmetic or a comparison, "
+    "or a switch/loop, and at least one vector was compared with gcc; distinct = (program, vectors)"
 )
 ASSUMPTIONS = [
     "C3 semantics = fixed-width arithmetic of the declared types as computed by the C rendering under gcc 12 -O0 on "
-    "x86-64 (two's-complement narrowing casts, arithmetic >> of negative values)",
+    "x86-64 (two's-complement narrowing casts, arithmetic >> of negative values); int8_t/int16_t operations wrap "
+    "(computed in int and cast back), overflow of int/int64_t is outside the domain",
     "C3 on x86_64: int is 32 bit (arch.info.get_size('int') == 4, checked at run time), bool is stored like int with "
     "values 0/1, structs and arrays are laid out without padding (typechecker.check_type) - used only to decode the "
     "final bytes of global variables",
-    "binary operations only between operands of the same C3 type; literals are `int` literals (|v| < 2^31); switch "
-    "does not fall through (test/samples/simple/switch_statement.c3 + .out)",
+    "binary operations only between operands of the same C3 type (mixed types through cast<T>, or through the implicit "
+    "conversions typechecker.do_coerce inserts at assignments, arguments and returns); literals are `int` literals "
+    "(|v| < 2^31); `<<` only on unsigned types; switch does not fall through (test/samples/simple/switch_statement.c3 "
+    "+ .out); a constant expression means what the same run-time int expression means",
+    "side effects are ordered by C sequence points only: impure calls are whole statements/right-hand sides or operands "
+    "of and/or/not; no pointer arithmetic (C3 adds bytes, C adds elements)",
     "vf/irsem.py IR semantics (DESIGN.md 3.1)",
 ]
 TRUSTED = ["CPython", "Hypothesis", "gcc 12 (-O0 and -fsanitize=undefined)", "vf/irsem.py (reference IR interpreter)",
-           "vf/genc3.py (generator, C renderer, direct evaluator)"]
-REGISTER = False
+           "vf/c3prog.py (generator, C renderer, direct evaluator)"]
+REGISTER = True
 TECHNIQUE = "differential: gcc execution of a C rendering vs reference IR interpreter on c3_to_ir output, Hypothesis-generated programs"
 LEVEL_TEXT = (
     "Exploration with an independent oracle: each generated program is compiled by ppci's C3 front-end and interpreted by "
@@ -48,11 +57,16 @@ LEVEL_TEXT = (
 
 MARCH = "x86_64"
 # generator shape -> open finding that it avoids
-EXCLUSIONS = {}
+EXCLUSIONS = {"const_divmod": "C37-KF1", "global_bool_init": "C37-KF2"}
 
 
 def profile(quick=True):
-    return genc3.Profile(exclude=set(EXCLUSIONS))
+    exclude = set(EXCLUSIONS)
+    if os.environ.get("VERIF_C37_NO_EXCLUSIONS"):  # used to validate a fix: the shapes of open findings are generated
+        exclude = set()
+    if quick:
+        return genc3.Profile(exclude=exclude)
+    return genc3.Profile(max_funcs=5, max_stmts=6, max_vectors=5, exclude=exclude)
 
 
 # ---------------------------------------------------------------------------
@@ -66,6 +80,8 @@ def compile_c3(src):
     from ppci.common import CompilerError
 
     buf = io.StringIO()
+    quiet = logging.root.manager.disable
+    logging.disable(logging.CRITICAL)  # the diagnostics also go to the log as errors
     try:
         with contextlib.redirect_stdout(buf):
             return c3_to_ir([io.StringIO(src)], [], MARCH), ""
@@ -78,6 +94,8 @@ def compile_c3(src):
         frames = [f for f in tb if "ppci" in f.filename]
         where = "%s:%s" % (os.path.basename(frames[-1].filename), frames[-1].name) if frames else "?"
         return None, "internal error %s in %s" % (type(e).__name__, where)
+    finally:
+        logging.disable(quiet)
 
 
 def run_gcc(csrc, tmp, sanitize):
@@ -89,17 +107,27 @@ def run_gcc(csrc, tmp, sanitize):
     cmd = ["gcc", "-O0", "-w", "-std=gnu11", "-pipe", "-o", exe, src]
     if sanitize:
         cmd[1:1] = ["-fsanitize=undefined", "-fsanitize-recover=all"]
-    r = subprocess.run(cmd, capture_output=True, text=True)
-    if r.returncode != 0:
-        keep = os.path.join(tempfile.gettempdir(), "vf-C37-rejected.c")
-        shutil.copy(src, keep)
-        raise HarnessError("gcc rejects the C rendering (kept as %s):\n%s" % (keep, r.stderr[:3000]))
+    for attempt in range(3):
+        try:
+            r = subprocess.run(cmd, capture_output=True, text=True)
+        except OSError:
+            continue  # the machine is out of processes/memory: try again, then give the batch up
+        if r.returncode == 0:
+            break
+        if "error:" in r.stderr:
+            keep = os.path.join(tempfile.gettempdir(), "vf-C37-rejected.c")
+            shutil.copy(src, keep)
+            raise HarnessError("gcc rejects the C rendering (kept as %s):\n%s" % (keep, r.stderr[:3000]))
+    else:
+        return "", "", False  # gcc itself failed (killed, resources): the vectors stay unconfirmed, never a failure
     try:
-        r = subprocess.run([exe], capture_output=True, text=True, timeout=120)
+        r = subprocess.run([exe], capture_output=True, text=True, timeout=300)
     except subprocess.TimeoutExpired as e:
         out = e.stdout.decode() if isinstance(e.stdout, bytes) else (e.stdout or "")
         err = e.stderr.decode() if isinstance(e.stderr, bytes) else (e.stderr or "")
         return out, err, False
+    except OSError:
+        return "", "", False
     return r.stdout, r.stderr, r.returncode == 0
 
 
@@ -118,14 +146,16 @@ def parse_c_output(out):
 
 
 def ubsan_flagged(err):
-    flagged, cur = set(), None
+    """-> (calls with a UBSan report, calls the sanitised program started)"""
+    flagged, seen, cur = set(), set(), None
     for line in err.splitlines():
         if line.startswith("@"):
             a, b = line[1:].split()
             cur = (int(a), int(b))
+            seen.add(cur)
         elif "runtime error" in line and cur is not None:
             flagged.add(cur)
-    return flagged
+    return flagged, seen
 
 
 def decode_globals(prog, obs_globals):
@@ -147,6 +177,17 @@ def decode_globals(prog, obs_globals):
             vals.append(genc3.norm(t, int.from_bytes(data[pos:pos + n], "little")))
             pos += n
     return vals
+
+
+def malformed_globals(module):
+    """ir.Variable.value is a tuple of bytes / (ptr, name) parts; anything else is not an initial value"""
+    from ppci import ir
+
+    for v in module.variables:
+        for part in v.value or ():
+            if not isinstance(part, bytes) and not (isinstance(part, tuple) and len(part) == 2 and part[0] is ir.ptr):
+                return "the IR global %s has the initial value %r instead of bytes" % (v.name, v.value)
+    return None
 
 
 def leaf_names(prog):
@@ -183,13 +224,21 @@ class Front:
             self.expect.append(e)
         if not self.calls:
             raise Discard("every vector touches C undefined behaviour")
+        bad = malformed_globals(module)
         for (name, args), (eret, eglob, steps) in zip(self.calls, self.expect):
+            if bad:
+                self.ir.append(("problem", bad))
+                continue
             try:
                 obs = irsem.observe_call(module, "%s_%s" % (genc3.MOD, name), args, ptr_bits=64, fuel=3000 + 150 * steps)
             except irsem.Undef as u:
                 self.ir.append(("undef", u.reason))
                 continue
             except irsem.Unsupported as u:
+                if u.reason.startswith("non-integer constant"):
+                    # not a gap of the interpreter: the front end put a float into an integer-typed ir.Const
+                    self.ir.append(("problem", "the IR of c3_to_ir contains a non-integer constant of an integer type (C gives %r)" % (eret,)))
+                    continue
                 self.ir.append(("unsupported", u.reason))
                 if stats is not None:
                     stats.hist["vector_discarded:irsem unsupported " + u.reason] += 1
@@ -228,7 +277,7 @@ def gcc_results(fronts, tmp, stats=None):
     out, _, complete = run_gcc(csrc, tmp, False)
     res = parse_c_output(out)
     _, serr, _ = run_gcc(csrc, tmp, True)
-    flagged = ubsan_flagged(serr)
+    flagged, sanitised = ubsan_flagged(serr)
     if not complete and stats is not None:
         stats.notes.append("the C program of a batch did not run to completion")
     refs = []
@@ -237,7 +286,7 @@ def gcc_results(fronts, tmp, stats=None):
         for k, ((name, args), e) in enumerate(zip(f.calls, f.expect)):
             r = res.get((i, k))
             why = None
-            if r is None:
+            if r is None or (i, k) not in sanitised:
                 why = "no C result"
             elif (i, k) in flagged:
                 why = "ubsan"
@@ -282,7 +331,36 @@ def replay(case):
 
 
 def classify(case, msg):
-    return None
+    """C37-KF1: Context.eval_const folds `/` with operator.truediv and `%` with operator.mod.  Attributed only when
+    a constant expression of the program (const definition, case label, global initialiser) uses `/` or `%` and the
+    IR behaves on the failing call exactly like the program evaluated with Python-folded constants (a float reaching
+    an ir.Const of integer type, or the values that the floor-modulo constants produce)."""
+    try:
+        prog = case["program"]
+        if genc3.bool_global_init(prog):
+            # C37-KF2: CodeGenerator.gen_global_ival has no branch for bool and returns None
+            names = [g["name"] for g in prog["globals"] if g["ty"] == "bool" and g.get("init") is not None]
+            if any(("the IR global %s_%s has the initial value (None,) instead of bytes" % (genc3.MOD, n)) in msg for n in names):
+                return "C37-KF2"
+        if not genc3.constant_divmod(prog):
+            return None
+        m = re.match(r"(\w+)\((.*?)\): ", msg)
+        if not m:
+            return None
+        call = (m.group(1), [int(x) for x in m.group(2).split(",") if x.strip()])
+        front = Front(case)
+        j = front.calls.index(call)
+        ir = front.ir[j]
+        model = genc3.evaluate(prog, [call], pythonic=True)[0]
+        if isinstance(model, genc3.FloatConst):
+            ok = ir[0] == "problem" and "non-integer constant" in ir[1]
+        elif isinstance(model, genc3.UB):
+            ok = False
+        else:
+            ok = ir[0] == "ok" and (ir[1], ir[2]) == (model[0], model[1])
+        return "C37-KF1" if ok else None
+    except Exception:
+        return None
 
 
 def sample_of(case, compared):
@@ -298,17 +376,23 @@ def _worker(arg):
     tmp = tempfile.mkdtemp(prefix="vf-C37-")
     prof = profile(quick)
     pending = {}
+    state = {"shrinking": False}
 
     def prop(case):
         key = jhash([case["program"], case["calls"]])
         if key in pending:
             return None
-        front = Front(case, stats)
+        front = Front(case, None if state["shrinking"] else stats)
         msg, compared = front.verdict()
+        if state["shrinking"]:
+            return msg  # variants of a failing case: neither counted nor sent to gcc
         if msg is None:
             pending[key] = front
         else:
             record(stats, case, key, compared)
+            kid = classify(case, msg)
+            if not (kid and kid in open_finding_ids(PID)):
+                state["shrinking"] = True  # hyp_search stops generating and shrinks this case
         return msg
 
     try:
